@@ -307,7 +307,8 @@ theorem designate_cache_coherent (steps : List (EComp.EStep Guarded.Env (Guarded
     manifest or NEF-only) / destroy / inter-contract calls, in halting or rolled-back transactions, and restarts:
     every cached record has the stored id and update counter and its manifest object is well-formed and serialises
     to EXACTLY the stored item. (`mgmt_init`, the restart case, is C16's round-trip theorem
-    FromStackItem (ToStackItem m) = normalize m.) -/
+    FromStackItem (ToStackItem m) = normalize m. That an accepted manifest is well-formed for the decoder is checked by
+    the model's deploy / update guard `accept`, no longer a hypothesis; `Hyp` = re-marshalling `extra` is idempotent.) -/
 theorem management_cache_coherent (P : Mgmt.Params) (hy : Mgmt.Hyp P) (steps : List (CStep Mgmt.MOp))
     (n : CNode Mgmt.MStore Mgmt.MCache) (h : Mgmt.MgmtJ P n.store n.cache) :
     Mgmt.MgmtJ P ((Mgmt.management P).crun n steps).store ((Mgmt.management P).crun n steps).cache :=
@@ -382,6 +383,17 @@ theorem reward_fields_cache_independent (cfg : Natives.Cfg) (st : Natives.Storag
     Reward.RSim (Reward.rewardsOfBlock cfg st c h txs gas s₁) (Reward.rewardsOfBlock cfg st c h txs gas s₂) ∧
     Reward.RSim s₁ { s₂ with gpv := gpvStep s₂.gpv .restart } :=
   ⟨Reward.rewardsOfBlock_sim cfg st c h txs gas hs, Reward.restart_sim hs⟩
+
+/-- (C01, restart transparency of the reward records and their consumers, NO hypothesis on the state) From the state
+    right after genesis, two replicas fed the same blocks, each restarted before ANY subset of them (InitializeCache
+    empties the gasPerVoteCache), end with the same stored reward-per-vote records and the same BalanceHeight /
+    LastGasPerVote of every NEO account record, and coherent caches. The coherence assumption `RSim` of
+    `reward_fields_cache_independent` is an invariant of the reachable states. -/
+theorem reward_fields_restart_transparent (acc : List (Natives.Acct × (Nat × Int))) (l₁ l₂ : List (Bool × Reward.Blk))
+    (hb : l₁.map (·.2) = l₂.map (·.2)) :
+    Reward.RSim (Reward.rrun { gpv := { store := [], cache := [] }, acc := acc } l₁)
+      (Reward.rrun { gpv := { store := [], cache := [] }, acc := acc } l₂) :=
+  Reward.rrun_sim l₁ l₂ hb (Reward.genesis_sim acc)
 
 -- non-vacuity: block 1 of the witness history (a transfer of 30M NEO from the genesis holder to K2's account): both
 -- records get BalanceHeight 1; and the relation holds between a state and itself
